@@ -62,7 +62,34 @@ def static_writes(prog: Program) -> List[StaticWrite]:
                     if attr.startswith("_") and "__" in attr[1:] and not attr.startswith("__"):
                         attr = attr[attr.index("__", 1):]
                     out.append(StaticWrite(owner[1], attr, func, node, kind + ("[]" if element else "")))
+                elif (
+                    owner and owner[0] == "cls" and (element or kind.startswith("mut:"))
+                    and _class_level_container(owner[1], base.attr)
+                ):
+                    # self.attr.append(...) / self.attr[k] = v where attr exists only as a class-level
+                    # list / dict / set: one object shared by every instance
+                    out.append(StaticWrite(_class_level_container(owner[1], base.attr), base.attr, func, node, kind + ("[]" if element else "") + " via instance"))
     return out
+
+
+def _class_level_container(cls: ClassInfo, attr: str) -> Optional[ClassInfo]:
+    """The class (in the MRO) that defines ``attr`` as a class-level mutable literal, when no class
+    of the MRO ever assigns it as an instance field."""
+    for klass in cls.mro or [cls]:
+        if attr in klass.fields and klass.field_writers.get(attr):
+            for _func, node in klass.field_writers[attr]:
+                if isinstance(node, (ast.Assign, ast.AnnAssign)):
+                    return None  # rebound per instance somewhere: the instance owns its own object
+    for klass in cls.mro or [cls]:
+        value = klass.class_attrs.get(attr)
+        if value is None:
+            continue
+        if isinstance(value, (ast.List, ast.Dict, ast.Set, ast.ListComp, ast.DictComp, ast.SetComp)):
+            return klass
+        if isinstance(value, ast.Call) and (dotted(value.func) or "") in ("list", "dict", "set", "collections.defaultdict", "defaultdict", "collections.deque", "deque"):
+            return klass
+        return None
+    return None
 
 
 def global_writes(prog: Program) -> List[Tuple[FuncInfo, ast.AST, str]]:
